@@ -190,6 +190,16 @@ def run(ctx):
         lits = guards_any(cfg, cn, "has_option_token")
         for l in lits:
             seen_v[l] = (norm(c.args[0]) if c.args else None, c)
+        # the level may be computed by a private helper from the command line: v = self._h(args); if v is not None: io.set_verbosity(v)
+        if c.args and isinstance(c.args[0], ast.Name):
+            defs_ = [n for n in walk_no_nested(create_io.node) if isinstance(n, ast.Assign) and any(isinstance(t, ast.Name) and t.id == c.args[0].id for t in n.targets)]
+            if len(defs_) == 1 and isinstance(defs_[0].value, ast.Call) and isinstance(defs_[0].value.func, ast.Attribute) and isinstance(defs_[0].value.func.value, ast.Name) and defs_[0].value.func.value.id == "self":
+                h = p.lookup_method(dac, defs_[0].value.func.attr)
+                if h is not None:
+                    hcfg = ctx.cfg(h)
+                    for rn in [x for x in hcfg.nodes if x.kind == "return" and x.ast.value is not None and not (isinstance(x.ast.value, ast.Constant) and x.ast.value.value is None)]:
+                        for l in guards_any(hcfg, rn, "has_option_token"):
+                            seen_v.setdefault(l, (norm(rn.ast.value), c))
     for tok, level in want_v.items():
         got = seen_v.get(tok)
         if got is None:
@@ -271,7 +281,9 @@ def run(ctx):
     rc = ctx.func("ConsoleApplication.resolve_command")
     cfg = ctx.cfg(rc)
     resolver_calls = [cfg.node_of(c) for c in q.method_calls(rc, "resolve")]
-    pre = [n for n in cfg.nodes if n.kind == "T" and isinstance(n.ast, ast.Name) and "resolved" in n.ast.id]
+    pre = [n for n in cfg.nodes if n.kind == "T" and ((isinstance(n.ast, ast.Name) and "resolved" in n.ast.id) or (isinstance(n.ast, ast.Attribute) and "resolved" in n.ast.attr))]
+    pre += [n for n in cfg.nodes if n.kind == "F" and isinstance(n.ast, ast.UnaryOp) and isinstance(n.ast.op, ast.Not) and ((isinstance(n.ast.operand, ast.Name) and "resolved" in n.ast.operand.id)
+                                                                                                                       or (isinstance(n.ast.operand, ast.Attribute) and "resolved" in n.ast.operand.attr))]
     ctx.require(resolver_calls, "resolver call not found in resolve_command")
     if pre and not any(rn.id in cfg.reach([t.id]) for rn in resolver_calls for t in pre):
         r.ok("%s: a command set by a listener is returned before the resolver runs" % rc.short)
